@@ -1205,3 +1205,67 @@ m("C18", "refactor-unclosed-loop", PA,
             del self.namespaces[-unclosed:]
         unclosed = None
 ''', expect="silent")
+
+# ---- C17 -------------------------------------------------------------------
+UT = "utils.py"
+m("C17", "bom-not-cut", UT,
+  "            document = body[len(bom):].decode(encoding)",
+  "            document = body.decode(encoding)")
+m("C17", "table-not-reversed", UT,
+  "    for bom, encoding in reversed(xml_prefixes)",
+  "    for bom, encoding in xml_prefixes")
+m("C17", "meta-before-declaration", UT,
+  '''    if body.startswith(_xml_decl):
+        content_type = "text/xml"
+        encoding = read_xml_encoding(body) or default_encoding
+    else:
+        content_type, encoding = detect_encoding(body, default_encoding)
+''',
+  '''    content_type, encoding = detect_encoding(body, default_encoding)
+    if content_type is None and body.startswith(_xml_decl):
+        content_type = "text/xml"
+        encoding = read_xml_encoding(body) or default_encoding
+''')
+m("C17", "bom-doc-always-html", UT,
+  '''                "text/xml" if document.startswith("<?xml") else None''',
+  '''                None''')
+m("C17", "declared-encoding-ignored", UT,
+  "        encoding = read_xml_encoding(body) or default_encoding",
+  "        encoding = default_encoding")
+m("C17", "content-type-not-stored-on-read", TP,
+  '''        body, encoding, content_type = read_bytes(data, self.default_encoding)
+
+        self.content_type = content_type or self.default_content_type
+        self.content_encoding = encoding
+
+        return body''',
+  '''        body, encoding, content_type = read_bytes(data, self.default_encoding)
+
+        self.content_encoding = encoding
+
+        return body''')
+m("C17", "newlines-rewritten-in-xml", "zpt/template.py",
+  '''            body = body.replace('\\r\\n', '\\n').replace('\\r', '\\n')
+
+        return MacroProgram(''',
+  '''            pass
+
+        body = body.replace('\\r\\n', '\\n').replace('\\r', '\\n')
+
+        return MacroProgram(''')
+m("C17", "utf16-be-row-wrong-codec", UT,
+  "    (codecs.BOM_UTF16_BE, 'utf-16-be'),",
+  "    (codecs.BOM_UTF16_BE, 'utf-16-le'),", expect="silent")  # value-level
+m("C17", "default-encoding-latin1", TP,
+  '    default_encoding = "utf-8"', '    default_encoding = "latin-1"')
+m("C17", "str-xml-not-detected", TP,
+  '''        elif body.startswith('<?xml'):
+            content_type = 'text/xml'
+            encoding = read_xml_encoding(body.encode("utf-8"))''',
+  '''        elif body.startswith('<?xml '):
+            content_type = 'text/xml'
+            encoding = read_xml_encoding(body.encode("utf-8"))''')
+m("C17", "refactor-decode-var", UT,
+  '''    return body.decode(encoding), encoding, content_type''',
+  '''    return (body.decode(encoding), encoding, content_type)''',
+  expect="silent")
